@@ -90,6 +90,8 @@ def run(seeds, jobs, also):
             clause = next((l.strip()[len('clause:'):].strip() for l in v['violations'] if l.strip().startswith('clause:')), None)
             out['checks'][c] = {'rc': v['rc'], 'wall_s': v['wall_s'], 'clause': clause,
                                 'line': next((l for l in v['violations'] if l.startswith('VIOLATION')), None)}
+            if v['rc'] not in (0, 1):
+                out['checks'][c]['tail'] = v.get('tail')
         print(seed, {c: (v['rc'], v['clause']) for c, v in out['checks'].items()}, flush=True)
         return seed, out
     with ThreadPoolExecutor(jobs) as ex:
